@@ -60,11 +60,14 @@ def impl_main(payload):
                 if s:
                     ind.fitness = float(f)
                 pop.append(ind)
+            fn.base_ = base
             return fn, pop
         fs, ps = build()
-        Evaluation(fs, redundant=c["red"])(ps)
+        es = Evaluation(fs, redundant=c["red"])
+        es(ps)
         fm, pm = build()
-        Evaluation(fm, redundant=c["red"], multiprocess=c["procs"])(pm)
+        em = Evaluation(fm, redundant=c["red"], multiprocess=c["procs"])
+        em(pm)
         if fs.eval_count != fm.eval_count:
             viol.append("serial evaluation reports %d evaluations, %d worker processes report %d"
                         % (fs.eval_count, c["procs"], fm.eval_count))
@@ -73,6 +76,25 @@ def impl_main(payload):
                 viol.append("slot %d differs: serial (%r, %r, %r) vs multi-process (%r, %r, %r)"
                             % (j, a.values, a.fitness, a.fit_set, b.values, b.fitness, b.fit_set))
                 break
+        if not viol:
+            # second phase through the SAME evaluation objects after the fitness function was changed in place (what the
+            # predictor island and the subset evaluation do to training_data): every slot gets what the function assigns NOW
+            for fn in (fs, fm):
+                fn.base_.training_data = 500.0
+            for p in ps + pm:
+                p.fit_set = False
+            es(ps)
+            em(pm)
+            for j, (a, b) in enumerate(zip(ps, pm)):
+                due = float(a.values[0]) + 500.0
+                if a.values != b.values or a.fitness != b.fitness or b.fitness != due:
+                    viol.append("second phase after an in-place change of the fitness function, slot %d: serial (%r, %r) vs "
+                                "multi-process (%r, %r); the function now assigns %r"
+                                % (j, a.values, a.fitness, b.values, b.fitness, due))
+                    break
+            if fs.eval_count != fm.eval_count:
+                viol.append("after two phases serial evaluation reports %d evaluations, %d worker processes report %d"
+                            % (fs.eval_count, c["procs"], fm.eval_count))
         results.append(dict(out=out, viol=viol))
     return dict(results=results)
 
